@@ -312,6 +312,7 @@ func (w *World) localNames(fn *ssa.Function) map[string]ssa.Value {
 	}
 	m := map[string]ssa.Value{}
 	multi := map[string]bool{}
+	order := map[string][]ssa.Value{}
 	for _, b := range fn.Blocks {
 		for _, in := range b.Instrs {
 			dr, ok := in.(*ssa.DebugRef)
@@ -330,10 +331,23 @@ func (w *World) localNames(fn *ssa.Function) map[string]ssa.Value {
 				multi[name] = true
 			}
 			m[name] = dr.X
+			// every distinct definition is also reachable as name#k (k-th value bound to the name, in block order)
+			dup := false
+			for _, v := range order[name] {
+				if v == dr.X {
+					dup = true
+				}
+			}
+			if !dup {
+				order[name] = append(order[name], dr.X)
+			}
 		}
 	}
 	for n := range multi {
 		delete(m, n)
+		for k, v := range order[n] {
+			m[fmt.Sprintf("%s#%d", n, k+1)] = v
+		}
 	}
 	if w.names == nil {
 		w.names = map[*ssa.Function]map[string]ssa.Value{}
